@@ -1436,7 +1436,7 @@ func run(c *core.Ctx) {
 			remaining := time.Until(c.Deadline)
 			limit = batchSize
 			if perItem > 0 {
-				if fit := int(remaining * 8 / 10 / perItem); fit < limit {
+				if fit := int(remaining * 6 / 10 / perItem); fit < limit {
 					limit = fit
 				}
 			}
